@@ -1546,6 +1546,9 @@ class ContactHandler(Messenger, dbus.service.Object):
         return str(self._add_queue_item(item))
 
     def _add_queue_item(self, item):
+        if self._bus_release:
+            # still on the bus only for its received bundles to be taken
+            raise dbus.DBusException('The contact is closed')
         if item.transfer_id is None:
             item.transfer_id = self.next_id()
 
